@@ -264,7 +264,9 @@ func (m *Model) trackKeyedInvoke(c *Call, cm *callM) {
 	if c.Stream || c.Age != 0 {
 		return
 	}
-	if m.cBound[k] && !m.cDropped[k] && m.allReady() {
+	// m.op != nil: a balancer callback is in flight; the model has already
+	// applied its report but the balancer may not have yet
+	if m.cBound[k] && !m.cDropped[k] && m.op == nil && m.allReady() {
 		cm.cKey, cm.cSeq = k, m.coreSeq
 		m.probe("concurrent_bound_pick_judged")
 	}
